@@ -47,3 +47,21 @@ Example C04_example :
       (TNode "BinaryExpr" [TStr (bs "+"); TNode "Ident" [TPos 0; TPos 1; TStr (bs "a")]; TNode "Ident" [TPos 4; TPos 5; TStr (bs "b")]])
   = Some (bs "a + b").
 Proof. vm_compute. reflexivity. Qed.
+
+(* ---- parser side, on the modelled parts: every tree the expression-fragment model, the type model and the recovering type model (with
+   its BadType nodes and their tokens) can return is WELL TYPED with respect to the schema regenerated from ast/ast.go in this run -- each
+   node has exactly the fields of its struct, of the declared kinds, node-typed fields hold nil or a node whose type implements the declared
+   interface, slices hold no nil.  These are the trees on which the theorems above make SQL(), Pos(), End() and Walk total.  (The models are
+   tied to ParseExpr / ParseType by the correspondences of C07 / C08 / C09.) ---- *)
+From Verif Require Import Parse.ExprModel Parse.TypeModel Parse.TypeRecover Parse.WellTyped.
+Theorem C04_fragment_trees_are_well_typed : forall e, wt schema ifaces (to_tree e) = true.
+Proof. exact wt_expr. Qed.
+Print Assumptions C04_fragment_trees_are_well_typed.
+
+Theorem C04_type_trees_are_well_typed : forall t, wt schema ifaces (ty_tree t) = true.
+Proof. exact wt_ty. Qed.
+Print Assumptions C04_type_trees_are_well_typed.
+
+Theorem C04_recovered_type_trees_are_well_typed : forall t, wt schema ifaces (rty_tree t) = true.
+Proof. exact wt_rty. Qed.
+Print Assumptions C04_recovered_type_trees_are_well_typed.
